@@ -17,7 +17,7 @@ from harness.props.c08 import dump_to_schema
 
 ID = "C03"
 TIE_MODULES = ["StathamModel.Tie"]
-PROOF_MODULES = ["StathamModel.Lemmas.SerOk", "StathamModel.Lemmas.ParseNF"]
+PROOF_MODULES = ["StathamModel.Lemmas.SerOk", "StathamModel.Lemmas.ParseNF", "StathamModel.Lemmas.AccNames", "StathamModel.Lemmas.SerSem"]
 ASSUMPTIONS = ["element trees are acyclic", "the specification oracle is the Lean Draft-6 definition (spec op), with the three documented deviations"]
 N_TREES = {"quick": 700, "thorough": 20000}
 
@@ -180,17 +180,20 @@ def check_tree(drv, el, dump, defs, values, out, stats, history=(), extra=(), no
             stats[label] = stats.get(label, 0) + 1
             if not ts["same"] and in_tie:
                 out.disagreements.append({"what": "toSchema (schema-level serializer model) vs dereferenced serialize_json output", "impl": flat, **case})
-            hyp = ts["nf"] and ts["good"]
-            stats["theorem-hypotheses-" + ("hold" if hyp else ("notNF" if not ts["nf"] else "notGood"))] = \
-                stats.get("theorem-hypotheses-" + ("hold" if hyp else ("notNF" if not ts["nf"] else "notGood")), 0) + 1
+            # NF: hypothesis of C03_partial_meaning; NFn (normal form up to attribute names): of C03_partial_meaning_renamed
+            label = ("hold-NF" if ts["nf"] else "hold-NFn-only") if (ts["nf"] or ts.get("nfn")) and ts["good"] else \
+                ("notNFn" if not (ts["nf"] or ts.get("nfn")) else "notGood")
+            stats["theorem-hypotheses-" + label] = stats.get("theorem-hypotheses-" + label, 0) + 1
+            if ts["nf"] and not ts.get("nfn"):
+                out.disagreements.append({"what": "model: NF tree that is not NFn (NF implies NFn)", **case})
             if ts["nf"] and not ts["round_trip_identity"]:
                 out.disagreements.append({"what": "model: NF tree whose model round trip is not the identity (contradicts C06_partial_round_trip)", **case})
     for i, v in enumerate(values):
         real_v = core.real_call(el, v)
         if real_v["r"] not in ("ok", "reject") or not spec["distinct_keys"][i]:
             continue
-        if ts is not None and ts["same"] and ts["nf"] and ts["good"] and ts["calls"][i]["r"] != "crash":
-            # C03_partial_meaning, on the real code: accepts iff Draft 6 (library's reading of the waiver) says valid
+        if ts is not None and ts["same"] and (ts["nf"] or ts.get("nfn")) and ts["good"] and ts["calls"][i]["r"] != "crash":
+            # C03_partial_meaning / C03_partial_meaning_renamed, on the real code: accepts iff Draft 6 (library's reading of the waiver) says valid
             stats["theorem-instances-on-real-code"] = stats.get("theorem-instances-on-real-code", 0) + 1
             if (real_v["r"] == "ok") != ts["valid"][i]:
                 out.failures.append({"case": {**case, "value": core.enc_arg(v)}, "finding": None,
